@@ -399,6 +399,10 @@ def rules(ctx):
     r4_out_of_place(ctx)
     r5_clone(ctx)
     r6_purity(ctx)
+    # a revert is the other writer of cached values: it must restore or invalidate every forked entry, otherwise a derived value
+    # computed from the rejected assignment is served afterwards (same structural rule as C02.R3, decided on the same code)
+    from .c02 import r3_revert_structure
+    r3_revert_structure(ctx, rid="C01.R7", title="State.revert restores or invalidates every forked entry (no stale derived value survives a revert)")
     ctx.trust("CPython ast; Python dict semantics; torch out-of-place semantics of methods whose name does not end in '_'")
     ctx.assume("sorted_children / sorted_ancestors of VariablesDAG are the exact transitive closures in topological order (C15)")
 
